@@ -35,6 +35,7 @@ type Contract struct {
 	Line     int
 	Header   string
 	Recv     string // receiver base type name ("" for functions)
+	RecvQual string // package alias when the receiver is an interface of another package (pkg.Iface)
 	RecvPtr  bool
 	Name     string
 	Params   []string // own names, receiver first when present
@@ -427,7 +428,12 @@ func parseFuncContract(pkgPath, path string, head rawLine, clauses []rawLine) (*
 		case *ast.Ident:
 			c.Recv = tt.Name
 		case *ast.SelectorExpr:
+			// pkgalias.Interface: a contract for an interface of another package, stated (and used)
+			// in this package only, over this package's types
 			c.Recv = tt.Sel.Name
+			if id, ok := tt.X.(*ast.Ident); ok {
+				c.RecvQual = id.Name
+			}
 		case *ast.IndexExpr:
 			if id, ok := tt.X.(*ast.Ident); ok {
 				c.Recv = id.Name
